@@ -200,8 +200,8 @@ func (o seqOp) String() string {
 	switch o.Kind {
 	case "Lit":
 		return o.Lit.String()
-	case "Len":
-		return fmt.Sprintf("v%d.Len()", o.R)
+	case "Len", "Unique":
+		return fmt.Sprintf("v%d.%s()", o.R, o.Kind)
 	case "RejectEq", "SelectEq", "AnyEq":
 		return fmt.Sprintf("v%d.%s(e => e.Equals(v%d))", o.R, strings.TrimSuffix(o.Kind, "Eq"), o.X)
 	}
@@ -212,8 +212,8 @@ func (o seqOp) gallina() string {
 	switch o.Kind {
 	case "Lit":
 		return "SLit " + o.Lit.gallina()
-	case "Len":
-		return fmt.Sprintf("SLen %d", o.R)
+	case "Len", "Unique":
+		return fmt.Sprintf("S%s %d", o.Kind, o.R)
 	}
 	return fmt.Sprintf("S%s %d %d", o.Kind, o.R, o.X)
 }
@@ -278,7 +278,7 @@ func seqRef(pool []*seqTree, o seqOp) seqOut {
 	}
 	recv := pool[o.R]
 	var x *seqTree
-	if o.Kind != "Len" {
+	if o.Kind != "Len" && o.Kind != "Unique" {
 		x = pool[o.X]
 	}
 	if o.Kind == "Equals" {
@@ -300,6 +300,20 @@ func seqRef(pool []*seqTree, o seqOp) seqOut {
 	switch o.Kind {
 	case "Len":
 		return outN(len(recv.A))
+	case "Unique":
+		// first occurrences modulo equality: kept when no earlier element is equal to it
+		r := za()
+		r.A = []*seqTree{}
+		for i, e := range recv.A {
+			dup := false
+			for _, s := range recv.A[:i] {
+				dup = dup || refEq(s, e)
+			}
+			if !dup {
+				r.A = append(r.A, e)
+			}
+		}
+		return seqOut{T: r}
 	case "Delete", "RejectEq":
 		return filter(func(e *seqTree) bool { return !refEq(e, x) })
 	case "SelectEq":
@@ -346,7 +360,7 @@ func seqImpl(pool []px.Value, o seqOp) (out seqOut) {
 	}
 	recv := pool[o.R]
 	var x px.Value
-	if o.Kind != "Len" {
+	if o.Kind != "Len" && o.Kind != "Unique" {
 		x = pool[o.X]
 	}
 	if o.Kind == "Equals" {
@@ -365,6 +379,8 @@ func seqImpl(pool []px.Value, o seqOp) (out seqOut) {
 	switch o.Kind {
 	case "Len":
 		return outN(l.Len())
+	case "Unique":
+		return seqOut{T: decode(l.Unique())}
 	case "Delete":
 		return seqOut{T: decode(l.Delete(x))}
 	case "DeleteAll":
@@ -408,7 +424,11 @@ func runSeqHistory(ops []seqOp) *seqHistory {
 		}
 		// immutability: receiver and argument are what they were
 		if o.Kind != "Lit" {
-			for _, j := range []int{o.R, o.X} {
+			js := []int{o.R, o.X}
+			if o.Kind == "Len" || o.Kind == "Unique" {
+				js = js[:1]
+			}
+			for _, j := range js {
 				if j < len(rpool) && !decode(ipool[j]).same(rpool[j]) {
 					fail(fmt.Sprintf("step %d %s changed v%d: now %s, was %s", i, o, j, decode(ipool[j]), rpool[j]))
 				}
@@ -439,6 +459,9 @@ func seqImplValue(pool []px.Value, o seqOp, fallback *seqTree) (v px.Value) {
 		}
 	}()
 	l := pool[o.R].(*types.Array)
+	if o.Kind == "Unique" {
+		return l.Unique()
+	}
 	x := pool[o.X]
 	switch o.Kind {
 	case "Delete":
@@ -588,6 +611,10 @@ func seqCorpus() [][]seqOp {
 	// equal but not identical keyless values; nested
 	out = append(out, []seqOp{lit(za(zv(zObj7a), zv(zObj8), za(zv(zTnA1)), zv(zObj7b), zv(zTnA2))), lit(za(zv(zObj7b), za(zv(zTnA2)))),
 		{Kind: "DeleteAll", R: 0, X: 1}, lit(zv(zTnA1)), {Kind: "Delete", R: 2, X: 3}, {Kind: "SelectEq", R: 0, X: 3}})
+	// Unique: total, first occurrences modulo Equals; two NaN are two elements; lists that hold such values
+	out = append(out, []seqOp{lit(za(zv(zOne), zv(zObj7a), zv(zNaN), za(zv(zObj7a)), zv(zOne), zv(zNaN), zv(zObj7b), zv(zSens1),
+		za(zv(zObj7b)), za(zv(zNaN)), za(zv(zNaN)), zv(zSens1), zv(zTnA2), zv(zTnA1), zv(zDef1a), zv(zDef1b))), {Kind: "Unique", R: 0},
+		{Kind: "Unique", R: 1}, {Kind: "Len", R: 1}, lit(za(zv(zNaN), zv(zNaN))), {Kind: "Unique", R: 4}, lit(za(zv(zOne), zv(zSens1))), {Kind: "Unique", R: 6}})
 	return out
 }
 
@@ -625,6 +652,12 @@ func seqDeleteFamily(thorough bool, yield func(ops []seqOp)) {
 				ops = append(ops, seqOp{Kind: "AnyEq", R: 0, X: last - 1})
 			}
 			ops = append(ops, seqOp{Kind: "Equals", R: 2, X: last}, seqOp{Kind: "Len", R: 2})
+			if len(l) == 0 {
+				// Unique of the array, of the array twice over, and of the array of the two
+				ops = append(ops, seqOp{Kind: "Unique", R: 0}, seqOp{Kind: "AddAll", R: 0, X: 0})
+				ops = append(ops, seqOp{Kind: "Unique", R: len(ops) - 1}, seqOp{Kind: "Lit", Lit: za(za(a...), za(a...))})
+				ops = append(ops, seqOp{Kind: "Unique", R: len(ops) - 1})
+			}
 			yield(ops)
 		}
 	}
@@ -646,7 +679,7 @@ func randomSeqTree(r *lib.Rng, depth int) *seqTree {
 func randomSeqHistory(r *lib.Rng, n int) []seqOp {
 	var ops []seqOp
 	var arrays, all []int
-	kinds := []string{"Delete", "Delete", "DeleteAll", "DeleteAll", "DeleteAll", "RejectEq", "SelectEq", "AnyEq", "Add", "AddAll", "Equals", "Len"}
+	kinds := []string{"Delete", "Delete", "DeleteAll", "DeleteAll", "DeleteAll", "RejectEq", "SelectEq", "AnyEq", "Add", "AddAll", "Equals", "Len", "Unique", "Unique"}
 	for i := 0; i < n; i++ {
 		if len(arrays) == 0 || r.Chance(1, 3) {
 			var t *seqTree
@@ -671,7 +704,7 @@ func randomSeqHistory(r *lib.Rng, n int) []seqOp {
 		switch k {
 		case "DeleteAll", "AddAll":
 			o.X = arrays[r.Intn(len(arrays))]
-		case "Len":
+		case "Len", "Unique":
 		case "Equals":
 			o.R = all[r.Intn(len(all))]
 			o.X = all[r.Intn(len(all))]
@@ -680,7 +713,7 @@ func randomSeqHistory(r *lib.Rng, n int) []seqOp {
 		}
 		ops = append(ops, o)
 		switch k {
-		case "Delete", "DeleteAll", "RejectEq", "SelectEq", "Add", "AddAll":
+		case "Delete", "DeleteAll", "RejectEq", "SelectEq", "Add", "AddAll", "Unique":
 			arrays = append(arrays, len(ops)-1)
 			all = append(all, len(ops)-1)
 		}
